@@ -10,6 +10,7 @@
 -/
 import TPV.Model.GeomPeval
 import TPV.Props.C05
+import TPV.Model.GeomBox
 import Mathlib.Tactic.Tauto
 
 namespace TPV.Geom
@@ -764,10 +765,14 @@ def exMP : Dom Rat :=
   .prod (.translate "x" (.circle "x" (.const [0, 0]) (pT fun t => [t + 1])) (.const [1, 0]))
         (.interval "t" (.const [0]) (.const [1]))
 
-/-- **Why `Dom.wf` excludes dependence below motion nodes** (holds of the current code as well):
+/-- **Why `Dom.wf` excludes dependence below motion nodes.**
     `Translate(Circle(r = t + 1)) × Interval_t` declares no variable (t is bound by the product), but the
-    membership test does not hand the partner coordinate down through the translation: it rejects the query
-    (the code raises "t is necessary") unless the parameter row supplies `t` once more. -/
+    membership test of the base model does not hand the partner coordinate down through the translation: it
+    rejects the query (the code raised "t is necessary") unless the parameter row supplies `t` once more.
+    The code was repaired in /repo 414d4d6 (`Translate/Rotate._contains` hand the other coordinates of the
+    points on as parameters); the base model `containsAux` (Model/Geom.lean, shared with C01/C05/C06/C10/C18)
+    follows in a coordinated step, after which this becomes a positive example and the `innerNeeds` condition
+    of `Dom.wf` disappears.  Until then the harness counts such expressions as `base-model-pending`. -/
 theorem motion_below_product_needs_row :
     exMP.freeVars = [] ∧ exMP.wf = false ∧
     contains τ0 exMP [("x", [1, 0]), ("t", [1/2])] [] = none ∧
@@ -794,4 +799,253 @@ example : sliceContains τ0 ⟨1/1000, 1/100000, 1/1000⟩ exSA exSB [("t", [1/2
   refine ⟨by decide +kernel, by decide +kernel, by decide, by decide, by decide⟩
 
 end examples
+
+/-! ## 6. user-set volumes, purity on a heap of parameter objects -/
+
+section uvol
+variable {K : Type} [Add K] [Sub K] [Mul K] [Div K] [Neg K] [LE K] [DecidableLE K] [OfNat K 0] [OfNat K 1]
+
+/-- **A user-set volume commutes with partial evaluation** (code after 98178e0) -/
+theorem upeval_volume (builtin : Dom K → Env K → Option K) (σ : Env K)
+    (hb : ∀ D ρ, builtin (D.peval σ) ρ = builtin D (ρ ++ σ)) (u : UDom K) (ρ : Env K) :
+    (u.peval σ).volume builtin ρ = u.volume builtin (ρ ++ σ) := by
+  obtain ⟨d, uv⟩ := u
+  cases uv with
+  | none => simp [UDom.peval, UDom.volume, hb]
+  | some f => simp [UDom.peval, UDom.volume, PFun.peval]
+
+/-- every built-in volume that is a function of the evaluated shape parameters qualifies -/
+theorem upeval_volume_ground (F : Shape K → Option K) (σ : Env K) (u : UDom K) (ρ : Env K) :
+    (u.peval σ).volume (fun D ρ => F (D.ground ρ)) ρ = u.volume (fun D ρ => F (D.ground ρ)) (ρ ++ σ) :=
+  upeval_volume _ σ (fun D ρ => by show F ((D.peval σ).ground ρ) = F (D.ground (ρ ++ σ)); rw [peval_ground]) u ρ
+end uvol
+
+section heap
+variable {K : Type}
+
+theorem callCopy_ext (σ : Env K) (rs : List PRef) : ∀ (h : Heap K) (rs' : List PRef) (h' : Heap K),
+    callCopy σ rs h = some (rs', h') → ∃ ext, h' = h ++ ext := by
+  induction rs with
+  | nil => intro h rs' h' e; simp only [callCopy, Option.some.injEq, Prod.mk.injEq] at e; exact ⟨[], by simp [e.2]⟩
+  | cons r rs ih =>
+    intro h rs' h' e
+    simp only [callCopy] at e
+    split at e
+    · simp at e
+    · rename_i d hd
+      split at e
+      · simp at e
+      · rename_i rs'' h'' hc
+        simp only [Option.some.injEq, Prod.mk.injEq] at e
+        obtain ⟨ext, he⟩ := ih _ _ _ hc
+        exact ⟨(restrictTo r.args σ ++ d) :: ext, by rw [← e.2, he]; simp⟩
+
+/-- **Purity.** `D(**σ)` (deep copy + `set_default`) only *adds* cells: every cell that existed before the call
+    is unchanged, so every object that existed before — the original `D` in particular — reads exactly the
+    same defaults after the call, whatever `σ`, however often the call is repeated. -/
+theorem callCopy_pure (σ : Env K) (rs : List PRef) (h : Heap K) (rs' : List PRef) (h' : Heap K)
+    (e : callCopy σ rs h = some (rs', h')) (other : List PRef) (ho : ∀ r ∈ other, r.cell < h.length) :
+    readObj other h' = readObj other h := by
+  obtain ⟨ext, rfl⟩ := callCopy_ext σ rs h rs' h' e
+  simp only [readObj]
+  apply List.map_congr_left
+  intro r hr
+  exact List.getElem?_append_left (ho r hr)
+
+/-- the new object has the same argument lists, and all its parameter objects are fresh cells -/
+theorem callCopy_fresh (σ : Env K) (rs : List PRef) : ∀ (h : Heap K) (rs' : List PRef) (h' : Heap K),
+    callCopy σ rs h = some (rs', h') → rs'.map (·.args) = rs.map (·.args) ∧ (∀ r ∈ rs', h.length ≤ r.cell) := by
+  induction rs with
+  | nil =>
+    intro h rs' h' e
+    simp only [callCopy, Option.some.injEq, Prod.mk.injEq] at e
+    obtain ⟨rfl, rfl⟩ := e
+    exact ⟨rfl, by simp⟩
+  | cons r rs ih =>
+    intro h rs' h' e
+    simp only [callCopy] at e
+    split at e
+    · simp at e
+    · rename_i d hd
+      split at e
+      · simp at e
+      · rename_i rs'' h'' hc
+        simp only [Option.some.injEq, Prod.mk.injEq] at e
+        obtain ⟨rfl, rfl⟩ := e
+        obtain ⟨i1, i2⟩ := ih _ _ _ hc
+        refine ⟨by simp [i1], ?_⟩
+        intro r' hr'
+        simp only [List.mem_cons] at hr'
+        rcases hr' with rfl | hr'
+        · exact Nat.le_refl _
+        · have := i2 r' hr'; simp at this; omega
+
+/-- one parameter object: the copy's defaults are the given values (restricted to the arguments) in front of
+    the old defaults — evaluating the function with them is `PFun.peval` (`p.f (e ++ σ ++ old)`) -/
+theorem callCopy_single (σ : Env K) (r : PRef) (h : Heap K) (d : Env K) (hd : h[r.cell]? = some d) :
+    callCopy σ [r] h = some ([⟨r.args, h.length⟩], h ++ [restrictTo r.args σ ++ d]) := by
+  simp [callCopy, hd]
+
+/-- **Without the deep copy the original changes**: one parameter `f(t)` without defaults, `D(t = 1)` in place:
+    afterwards the original's parameter has the default `t = 1` -/
+theorem callInPlace_not_pure :
+    callInPlace (K := Rat) [("t", [1])] [⟨["t"], 0⟩] [[]] = some [[("t", [1])]] ∧
+    readObj [⟨["t"], 0⟩] ([[("t", [(1 : Rat)])]] : Heap Rat) ≠ readObj [⟨["t"], 0⟩] ([[]] : Heap Rat) := by
+  constructor <;> decide
+
+example : callCopy (K := Rat) [("t", [1])] [⟨["t"], 0⟩] [[]] = some ([⟨["t"], 1⟩], [[], [("t", [1])]]) := by decide
+
+end heap
+
+/-! ## 7. the concrete bounding box (C18's model); every declared variable matters -/
+
+section bbox
+variable {K : Type} [Add K] [Sub K] [Mul K] [Div K] [Neg K] [LE K] [DecidableLE K] [OfNat K 0] [OfNat K 1]
+
+theorem mapOpt_map {α β γ : Type} (f : β → Option γ) (g : α → β) (l : List α) :
+    mapOpt f (l.map g) = mapOpt (fun a => f (g a)) l := by
+  induction l with
+  | nil => rfl
+  | cons a as ih => simp only [List.map_cons, mapOpt, ih]
+
+theorem eval1_peval (p : PFun K) (σ : Env K) : eval1 (p.peval σ) = fun ρ => eval1 p (ρ ++ σ) := rfl
+theorem eval2_peval (p : PFun K) (σ : Env K) : eval2 (p.peval σ) = fun ρ => eval2 p (ρ ++ σ) := rfl
+theorem eval3_peval (p : PFun K) (σ : Env K) : eval3 (p.peval σ) = fun ρ => eval3 p (ρ ++ σ) := rfl
+theorem parCorners_peval (o c1 c2 : PFun K) (σ : Env K) :
+    parCorners (o.peval σ) (c1.peval σ) (c2.peval σ) = fun ρ => parCorners o c1 c2 (ρ ++ σ) := rfl
+theorem triCorners_peval (o c1 c2 : PFun K) (σ : Env K) :
+    triCorners (o.peval σ) (c1.peval σ) (c2.peval σ) = fun ρ => triCorners o c1 c2 (ρ ++ σ) := rfl
+
+/-- **The bounding box commutes with partial evaluation** (C18's model of `bounding_box(params)`, every node
+    kind): the box of `D(**σ)` over the remaining rows `ρs` is the box of `D` over the rows extended by `σ`. -/
+theorem peval_bbox (σ : Env K) (D : Dom K) : ∀ (ρs : List (Env K)) (ρ : Env K),
+    bbox (D.peval σ) ρs ρ = bbox D (ρs.map (· ++ σ)) (ρ ++ σ) := by
+  induction D with
+  | interval v lb ub => intro ρs ρ; simp only [Dom.peval, bbox, mapOpt_map, eval1_peval]
+  | par v o c1 c2 => intro ρs ρ; simp only [Dom.peval, bbox, mapOpt_map, parCorners_peval]
+  | tri v o c1 c2 => intro ρs ρ; simp only [Dom.peval, bbox, mapOpt_map, triCorners_peval]
+  | circle v c r => intro ρs ρ; simp only [Dom.peval, bbox, mapOpt_map, eval1_peval, eval2_peval]
+  | sphere v c r => intro ρs ρ; simp only [Dom.peval, bbox, mapOpt_map, eval1_peval, eval3_peval]
+  | union a b iha ihb | inter a b iha ihb | prod a b iha ihb | cut a b iha ihb =>
+    intro ρs ρ; simp only [Dom.peval, bbox, iha, ihb]
+  | translate v d t ih => intro ρs ρ; simp only [Dom.peval, bbox, ih, PFun.peval]
+  | rotate v d m c ih => intro ρs ρ; simp only [Dom.peval, bbox, ih, PFun.peval]
+  | bdry d ih | bdryL d ih | bdryR d ih => intro ρs ρ; simp only [Dom.peval, bbox, ih]
+end bbox
+
+section sens
+variable {K : Type} [Add K] [Sub K] [Mul K] [Div K] [Neg K] [LE K] [DecidableLE K] [OfNat K 0] [OfNat K 1]
+
+/-- changing the value of `x` (everything else equal) changes the value of the parameter -/
+def PFun.Sensitive (p : PFun K) (x : String) : Prop :=
+  ∀ (e : Env K) (u u' : K), u ≠ u' → p.f (Env.set e x [u]) ≠ p.f (Env.set e x [u'])
+
+/-- every shape parameter of the expression is sensitive to each of its declared arguments
+    (true of the affine parameter functions with non-zero coefficients the harness generates) -/
+def Dom.AllSensitive : Dom K → Prop
+  | .interval _ lb ub => (∀ x ∈ lb.args, lb.Sensitive x) ∧ (∀ x ∈ ub.args, ub.Sensitive x)
+  | .par _ o c1 c2 | .tri _ o c1 c2 =>
+    (∀ x ∈ o.args, o.Sensitive x) ∧ (∀ x ∈ c1.args, c1.Sensitive x) ∧ (∀ x ∈ c2.args, c2.Sensitive x)
+  | .circle _ c r | .sphere _ c r => (∀ x ∈ c.args, c.Sensitive x) ∧ (∀ x ∈ r.args, r.Sensitive x)
+  | .union a b | .cut a b | .inter a b | .prod a b => a.AllSensitive ∧ b.AllSensitive
+  | .translate _ d t => d.AllSensitive ∧ (∀ x ∈ t.args, t.Sensitive x)
+  | .rotate _ d m c => d.AllSensitive ∧ (∀ x ∈ m.args, m.Sensitive x) ∧ (∀ x ∈ c.args, c.Sensitive x)
+  | .bdry d | .bdryL d | .bdryR d => d.AllSensitive
+
+/-- all arguments of all shape parameters -/
+def Dom.allArgs : Dom K → List String
+  | .interval _ lb ub => lb.args ++ ub.args
+  | .par _ o c1 c2 | .tri _ o c1 c2 => o.args ++ c1.args ++ c2.args
+  | .circle _ c r | .sphere _ c r => r.args ++ c.args
+  | .union a b | .cut a b | .inter a b | .prod a b => a.allArgs ++ b.allArgs
+  | .translate _ d t => t.args ++ d.allArgs
+  | .rotate _ d m c => m.args ++ c.args ++ d.allArgs
+  | .bdry d | .bdryL d | .bdryR d => d.allArgs
+
+theorem freeVars_sub_allArgs (D : Dom K) (x : String) : x ∈ D.freeVars → x ∈ D.allArgs := by
+  induction D with
+  | prod a b iha ihb =>
+    simp only [Dom.freeVars, Dom.allArgs, mem_dedup, List.mem_append, List.mem_filter]
+    rintro (⟨h, _⟩ | h)
+    · exact Or.inl (iha h)
+    · exact Or.inr (ihb h)
+  | _ => simp_all [Dom.freeVars, Dom.allArgs] <;> tauto
+
+/-- **Every declared variable matters** (`freeVars_exact`, the remaining half, under the sensitivity of the
+    parameter functions): changing the value of a declared variable in the parameter row changes the ground
+    expression — some shape parameter (a bound, a corner, a centre, a radius, a translation, a rotation)
+    takes another value. -/
+theorem freeVars_matter (D : Dom K) (hs : D.AllSensitive) (x : String) (hx : x ∈ D.freeVars)
+    (ρ : Env K) (u u' : K) (hu : u ≠ u') : D.ground (Env.set ρ x [u]) ≠ D.ground (Env.set ρ x [u']) := by
+  have hx' := freeVars_sub_allArgs D x hx
+  clear hx
+  induction D with
+  | interval v lb ub =>
+    simp only [Dom.allArgs, List.mem_append] at hx'
+    simp only [Dom.ground, ne_eq, Shape.prim.injEq, true_and, List.cons.injEq, and_true, not_and]
+    rcases hx' with h | h
+    · intro e; exact absurd e (hs.1 x h ρ u u' hu)
+    · intro _ e; exact absurd e (hs.2 x h ρ u u' hu)
+  | par v o c1 c2 | tri v o c1 c2 =>
+    simp only [Dom.allArgs, List.mem_append] at hx'
+    simp only [Dom.ground, ne_eq, Shape.prim.injEq, true_and, List.cons.injEq, and_true, not_and]
+    rcases hx' with (h | h) | h
+    · intro e; exact absurd e (hs.1 x h ρ u u' hu)
+    · intro _ e; exact absurd e (hs.2.1 x h ρ u u' hu)
+    · intro _ _ e; exact absurd e (hs.2.2 x h ρ u u' hu)
+  | circle v c r | sphere v c r =>
+    simp only [Dom.allArgs, List.mem_append] at hx'
+    simp only [Dom.ground, ne_eq, Shape.prim.injEq, true_and, List.cons.injEq, and_true, not_and]
+    rcases hx' with h | h
+    · intro _ e; exact absurd e (hs.2 x h ρ u u' hu)
+    · intro e; exact absurd e (hs.1 x h ρ u u' hu)
+  | union a b iha ihb | cut a b iha ihb | inter a b iha ihb | prod a b iha ihb =>
+    simp only [Dom.allArgs, List.mem_append] at hx'
+    simp only [Dom.ground, ne_eq, Shape.op.injEq, true_and, not_and]
+    rcases hx' with h | h
+    · intro e; exact absurd e (iha hs.1 h)
+    · intro _ e; exact absurd e (ihb hs.2 h)
+  | translate v d t ih =>
+    simp only [Dom.allArgs, List.mem_append] at hx'
+    simp only [Dom.ground, ne_eq, Shape.motion.injEq, true_and, List.cons.injEq, and_true, not_and]
+    rcases hx' with h | h
+    · intro _ e; exact absurd e (hs.2 x h ρ u u' hu)
+    · intro e; exact absurd e (ih hs.1 h)
+  | rotate v d m c ih =>
+    simp only [Dom.allArgs, List.mem_append] at hx'
+    simp only [Dom.ground, ne_eq, Shape.motion.injEq, true_and, List.cons.injEq, and_true, not_and]
+    rcases hx' with (h | h) | h
+    · intro _ e; exact absurd e (hs.2.1 x h ρ u u' hu)
+    · intro _ _ e; exact absurd e (hs.2.2 x h ρ u u' hu)
+    · intro e; exact absurd e (ih hs.1 h)
+  | bdry d ih | bdryL d ih | bdryR d ih =>
+    simp only [Dom.allArgs] at hx'
+    simp only [Dom.ground, ne_eq, Shape.bd.injEq, true_and]
+    exact ih hs hx'
+end sens
+
+/-- the generator's parameter functions: `k + a·t` with `a ≠ 0` is sensitive to `t` -/
+theorem affine_sensitive (k a : Rat) (ha : a ≠ 0) : (pT fun t => [k + a * t]).Sensitive "t" := by
+  intro e u u' hu
+  simp only [pT, Env.set, Env.get, List.lookup_cons, beq_self_eq_true, ne_eq, List.cons.injEq, and_true]
+  intro h
+  apply hu
+  have : a * u = a * u' := by linarith
+  exact mul_left_cancel₀ ha this
+
+
+/-- non-vacuity of `freeVars_matter`: the interval `[t, 1 + t]` -/
+example : (Dom.interval "y" (pT fun t => [0 + 1 * t]) (pT fun t => [1 + 1 * t]) : Dom Rat).AllSensitive :=
+  ⟨fun x hx => by simp [pT] at hx; subst hx; exact affine_sensitive 0 1 (by norm_num),
+   fun x hx => by simp [pT] at hx; subst hx; exact affine_sensitive 1 1 (by norm_num)⟩
+
+/-- **Pinned snapshot, defect 3** (`__call__` dropped a volume set with `set_volume`): the disc of radius `t + 1`
+    with the user volume `7 t` has volume 7 at `t = 1`; the evaluated copy kept it only after /repo 98178e0
+    (`builtin` stands for the built-in formula, here the constant 28). -/
+theorem old_user_volume_lost :
+    (⟨exSA, some (pT fun t => [7 * t])⟩ : UDom Rat).volume (fun _ _ => some 28) [("t", [1])] = some 7 ∧
+    ((⟨exSA, some (pT fun t => [7 * t])⟩ : UDom Rat).peval [("t", [1])]).volume (fun _ _ => some 28) [] = some 7 ∧
+    ((⟨exSA, some (pT fun t => [7 * t])⟩ : UDom Rat).pevalOld [("t", [1])]).volume (fun _ _ => some 28) [] = some 28 := by
+  refine ⟨by decide +kernel, by decide +kernel, by decide +kernel⟩
+
 end TPV.Geom
